@@ -54,6 +54,9 @@ type c15Case struct {
 	ExtraKeys uint64 `json:"extra_keys,omitempty"`
 	// Bulk > 0: comment lines make the file so large that its last group begins behind that byte offset
 	Bulk int `json:"bulk,omitempty"`
+	// Nested (valid files): the sandbox command is itself started by a sandbox command whose policy allows everything
+	// except sync(2): the process that loads the file's policy already runs under a filter, as in a container
+	Nested bool `json:"nested,omitempty"`
 }
 
 var c15ExtraKeyLines = []string{"arch: i386\n", "arch: x86_64\n", "arch: arm\n", "arch: aarch64\n", "arch: x32\n", "arch: \"386\"\n", "architectures: [i386, x32]\n", "comment: generated\n",
@@ -120,6 +123,7 @@ func drawC15(t *rapid.T) c15Case {
 			c.Env = append(c.Env, all[rapid.IntRange(0, len(all)-1).Draw(t, "env")])
 		}
 	}
+	c.Nested = c.Defect == "" && rapid.IntRange(0, 4).Draw(t, "nested") == 0
 	if rapid.IntRange(0, 7).Draw(t, "bulk") == 0 {
 		c.Bulk = []int{65536, 65536, 131072, 1 << 20}[rapid.IntRange(0, 3).Draw(t, "bulkSize")]
 	}
@@ -456,6 +460,7 @@ func runSandbox(c *c15Case, text string, writeFile bool) (*c15Run, error) {
 			args = nil // the flag's default value
 		}
 	}
+	nested := c.Nested && c.Defect == "" && !c.DenyExec && c.NNPFlag == "" && (c.NNP || c.Uid == 0)
 	switch c.NNPFlag {
 	case "":
 		args = append(args, fmt.Sprintf("-no-new-privs=%v", c.NNP))
@@ -464,6 +469,11 @@ func runSandbox(c *c15Case, text string, writeFile bool) (*c15Run, error) {
 		args = append(args, c.NNPFlag)
 	}
 	args = append(args, target, "arg1")
+	if nested {
+		outer := filepath.Join(dir, "outer.yml")
+		os.WriteFile(outer, []byte("seccomp:\n  default_action: allow\n  syscalls:\n  - action: errno\n    names:\n    - sync\n"), 0o644)
+		args = append([]string{"-policy", outer, sb}, args...)
+	}
 	cmd := exec.CommandContext(ctx, sb, args...)
 	cmd.Dir = cwd
 	cmd.Env = append([]string{"PATH=/usr/bin:/bin", "HOME=" + home, "PROBE_MARKER=" + marker, "PROBE_JOB=" + jobPath, "PROBE_NAME=sync"}, c.Env...)
@@ -562,6 +572,9 @@ func checkC15(raw json.RawMessage) (ev.Result, error) {
 	res.Classes = append(res.Classes, "valid")
 	if c.Bulk > 0 {
 		res.Classes = append(res.Classes, "policy-file-larger-than-64KiB")
+	}
+	if c.Nested && !c.DenyExec && c.NNPFlag == "" && (c.NNP || c.Uid == 0) {
+		res.Classes = append(res.Classes, "sandbox-started-under-an-enclosing-filter")
 	}
 	if c.ExtraKeys != 0 {
 		res.Classes = append(res.Classes, "groups-with-keys-outside-the-dialect")
